@@ -8,8 +8,8 @@ use std::sync::Mutex;
 use std::time::{Duration, Instant};
 
 pub const THREADS: usize = 16;
-const MAX_STORED_VIOLATIONS: usize = 30000;
-const MAX_STORED_PER_CHECK: u64 = 3000;
+const MAX_STORED_VIOLATIONS: usize = 60000;
+const MAX_STORED_PER_CHECK: u64 = 6000;
 
 #[derive(Clone, Debug)]
 pub struct Violation {
